@@ -233,6 +233,11 @@ class _P:
             c = self.take()
             if c == 0x29:
                 return items
+            if c == 0x28 and isinstance(items[-1], list):
+                # "(...)(...)": address lists and multipart bodies put
+                # parenthesised items next to each other without SP
+                self.pos -= 1
+                continue
             if c != 0x20:
                 raise WireError('list', 'expected SP or ) got %r' %
                                 bytes([c]), self.pos - 1)
